@@ -710,7 +710,25 @@ def ntt_primes():
         src = open(os.path.join(os.path.dirname(os.path.dirname(os.path.abspath(__file__))), "lean/Ymq/Gen/Params.lean")).read()
         blk = src.split("def NTT_PRIMES")[1].split("]")[0]
         PRIMES = [int(a) for a, _ in re.findall(r"\((\d+), (\d+)\)", blk)]
+        global GENS
+        GENS = [int(g) for _, g in re.findall(r"\((\d+), (\d+)\)", blk)]
     return PRIMES
+
+
+GENS = None
+
+
+def ntt_gens():
+    ntt_primes()
+    return GENS
+
+
+def bitrev(k, i):
+    r = 0
+    for _ in range(k):
+        r = (r << 1) | (i & 1)
+        i >>= 1
+    return r
 
 
 def mzp_w(n, logk):
@@ -760,6 +778,17 @@ def mzp_cases(rng, tier, extended):
                 out.append(Case(f"mzp_redc {n} {logk} {fmt(xs)}", o=o))
                 if j % 3 == 0:
                     out.append(Case(f"mzp_crt {n} {logk} {fmt(xs)}", o=o))
+            if logk <= 8:
+                # the root tables and the in-place transform (word-level model; O: per-prime DFT in Python)
+                for log in sorted({0, 1, min(2, logk), logk}):
+                    out.append(Case(f"mzp_roots {n} {logk} {log}"))
+                for k in sorted({1, min(2, logk), min(logk, 5)}):
+                    for fwd in ("true", "false"):
+                        v = []
+                        for i in range(1 << k):
+                            for p in ps:
+                                v.append(rng.choice([0, 1, p - 1, rng.randrange(p), rng.randrange(p), rng.randrange(p)]))
+                        out.append(Case(f"mzp_ntt {n} {logk} {k} {fwd} {fmt(v)}"))
     return out
 
 
@@ -999,6 +1028,32 @@ def mzp_oracle(op, a, ans):
     if op == "mzp_from_mint":
         x = int(a[2])
         return None if ans == fmt([x * W % p for p in ps]) else "residues != x*2^64 mod p_i"
+    if op in ("mzp_roots", "mzp_ntt"):
+        gs = ntt_gens()[:w]
+        om = [pow(gs[i], 1 << (32 - logk), ps[i]) for i in range(w)]          # order 2^logk
+        if op == "mzp_roots":
+            log = int(a[2])
+            half = (1 << log) // 2
+            exp = []
+            for idx in range(half):
+                exp += [pow(om[i], idx << (logk - log), ps[i]) * W % ps[i] for i in range(w)]
+            for idx in range(half):
+                exp += [pow(om[i], -(idx << (logk - log)), ps[i]) * W % ps[i] for i in range(w)]
+            return None if ans == fmt(exp) else "roots[log] != Montgomery forms of the powers of the root"
+        k, fwd = int(a[2]), a[3] == "true"
+        v = [int(x) for x in a[4].split(",")]
+        size = 1 << k
+        exp = [0] * (w * size)
+        for i in range(w):
+            p = ps[i]
+            wk = pow(om[i], 1 << (logk - k), p)
+            if not fwd:
+                wk = pow(wk, -1, p)
+            f = [v[w * bitrev(k, t) + i] for t in range(size)]
+            sc = 1 if fwd else pow(size, -1, p)
+            for j in range(size):
+                exp[w * j + i] = sum(f[t] * pow(wk, t * j, p) for t in range(size)) * sc % p
+        return None if ans == fmt(exp) else "ntt_inplace != DFT of the bit-reversed input"
     xs = [int(x) for x in a[2].split(",")]
     Winv = [pow(W, -1, p) for p in ps]
     V = sum((xs[i] * Winv[i] % ps[i]) * pow(P // ps[i], -1, ps[i]) % ps[i] * (P // ps[i]) for i in range(w)) % P
